@@ -181,6 +181,7 @@ type lockCase struct {
 	hist   []Step
 	op     Step
 	readOp bool // the writer restores the post state into a fresh instance
+	custom bool // build on the custom storage back-ends (operations can be suspended at a look-up)
 }
 
 // applyPartialStep applies one step of the Partial family to m (sequentially,
@@ -231,6 +232,9 @@ func (c *lockCase) applyStep(m *utreexo.MapPollard, st *Step, n uint64, prevN ui
 // (for undo).
 func (c *lockCase) build(steps []Step) (*utreexo.MapPollard, uint64, []uint64, error) {
 	m := newMap(false, c.rows)
+	if c.custom {
+		m = newMapCustom(false, c.rows)
+	}
 	n := uint64(0)
 	var stk []uint64
 	for i := range steps {
@@ -269,6 +273,9 @@ type queryArgs struct {
 	// the leaf is remembered before and after the writer's operation, so that
 	// verifying it again with remember=true changes nothing
 	rememberOK bool
+	// Prove is preceded by a request of 301 hashes that has to be refused (schedules of a sample of the cases only:
+	// the refusal message lists every hash)
+	bigProve bool
 }
 
 func (c *lockCase) answer(m *utreexo.MapPollard, kind string, a *queryArgs) (out string) {
@@ -285,11 +292,22 @@ func (c *lockCase) answer(m *utreexo.MapPollard, kind string, a *queryArgs) (out
 		s := m.GetStump()
 		return fmt.Sprintf("%d %s", s.NumLeaves, strings.Join(sy.Ts(s.Roots), " "))
 	case "Prove":
+		// first a large request that has to be refused (one hash is unknown): whatever the call
+		// started must be over when it returns
+		var berr error
+		if a.bigProve {
+			big := make([]Hash, 0, 301)
+			for i := 0; i < 300; i++ {
+				big = append(big, a.leaf)
+			}
+			big = append(big, sy.H(junkTerm(9)))
+			_, berr = m.Prove(big)
+		}
 		p, err := m.Prove([]Hash{a.leaf})
 		if err != nil {
-			return "err"
+			return "err " + errStr(berr)
 		}
-		return fmt.Sprintf("%v %s", p.Targets, strings.Join(sy.Ts(p.Proof), " "))
+		return fmt.Sprintf("%v %s %s", p.Targets, strings.Join(sy.Ts(p.Proof), " "), errStr(berr))
 	case "Verify":
 		if err := m.Verify(a.vHashes, a.vProof, false); err != nil {
 			return "err"
@@ -477,6 +495,7 @@ func (r *Runner) replayLockCase(l *Line) lineResult {
 			if pa := c.argsFor(pre, n); len(pa.vHashes) > 0 && len(args.vHashes) == 0 {
 				args = pa
 			}
+			args.bigProve = r.one || lineHash(l.raw)%6 == 0
 			ansPre := map[string]string{}
 			ansPost := map[string]string{}
 			for _, k := range queryKinds {
